@@ -127,6 +127,19 @@ def r3_lengths(ctx):
             body_push = [b for b in L["body"] if (callee_of(pr.term(b)) or {}).get("name") == "push"]
             if "num_segments" in names and body_reads and body_push:
                 ok = True
+    if not ok:
+        # `(0..num_segments).map(|_| Queries::read_from(source)).collect::<Result<Vec<_>, _>>()?`
+        for bi, t in pr.calls():
+            c = callee_of(t)
+            if pr.is_cleanup(bi) or not c or c.get("name") != "map" or len(t["a"]) != 2:
+                continue
+            rs = pr.slice_of_operand(t["a"][0], at=(bi, pr.INF))
+            names = {(callee_of(pr.term(b)) or {}).get("name") for b in rs["calls"]}
+            cls = pr.slice_of_operand(t["a"][1], at=(bi, pr.INF))["closures"]
+            reads = any((callee_of(t2) or {}).get("name") == "read_from" and "Queries" in ((callee_of(t2) or {}).get("full") or "")
+                        for ck in cls if ck in p.funcs for _, t2 in p.funcs[ck].calls())
+            if "num_segments" in names and reads:
+                ok = True
     ctx.ob("R3", "trace-query-sets=num_segments", ok,
            "Proof::read_from reads exactly context.trace_info().num_segments() trace query sets" if ok else
            "the number of trace query sets is not tied to trace_info().num_segments()", pr)
